@@ -88,7 +88,7 @@ Next ==
     \/ \E d \in Slots : Clear(d) \/ Destroy(d)
     \/ \E d \in Slots, f \in {"suffix", "prefix", "view", "appendself"} : SelfSet(d, f)
     \/ \E s \in Slots, op \in ConstOps, k \in Slots \cup {0} : ConstOp(s, op, k)
-    \/ \E s \in Slots, op \in ConstOps, j \in 1..2 : FaultConst(s, op, j)
+    \/ \E s \in Slots, op \in ConstOps, j \in 1..3 : FaultConst(s, op, j)
     \/ \E d, s \in Slots, j \in 1..2 : FaultAppend(d, s, j)
 Spec == Init /\ [][Next]_vars
 View == pool
